@@ -1,4 +1,5 @@
 import Spine.UseCaseLock
+import Spine.UseCaseFrame
 import Spine.Generated.EntityLocal
 /-!
 # C20 — facts regenerated from spine/entity_local.go on every run (tie b1)
@@ -25,5 +26,23 @@ theorem c20_cycles_are_locked :
 /-- it is ONE lock, the same package-level mutex for all four operations, not one per entity: operations on different
     entities exclude each other — the model has a single `holder` -/
 theorem c20_one_lock_for_all_entities : Generated.EntityLocal.useCaseMuxPackageLevel = true := by decide
+
+/-- WIRING (added in the deepening round): each of the four `EntityLocal` operations applies to the copied data
+    exactly ONE helper of `model.NodeManagementUseCaseDataType` — the one the model's `apply` transcribes for that
+    operation (`UC.Op.helper`: AddUseCaseSupport → AddUseCaseSupport / `UC.add`, SetUseCaseAvailability →
+    SetAvailability / `UC.setAvail`, RemoveUseCaseSupport → RemoveUseCaseSupport / `UC.remove`,
+    RemoveAllUseCaseSupports → RemoveUseCaseDataForAddress / `UC.removeAll`) — and it applies it after the DataCopy,
+    before the SetData and inside the same hold of the package-level mutex: the model's event `store k o` = "modify
+    the copy with o's helper and SetData" is what the source does on every path. Function literals are followed, so
+    a cycle written once with the helper passed in as a closure yields the same facts. -/
+theorem c20_operations_apply_their_helper :
+    Generated.EntityLocal.helperAddUseCaseSupport = (UC.Op.add [] 0 ⟨0, 0, false, [], 0⟩).helper ∧
+    Generated.EntityLocal.helperSetUseCaseAvailability = (UC.Op.setAvail [] 0 0 false).helper ∧
+    Generated.EntityLocal.helperRemoveUseCaseSupport = (UC.Op.remove [] 0 0).helper ∧
+    Generated.EntityLocal.helperRemoveAllUseCaseSupports = (UC.Op.removeAll []).helper := by decide
+
+/-- `HasUseCaseSupport` works on a copy, asks the data type's helper of that name and stores nothing: it is a pure
+    observation of the registry (`UC.has` on the current `reg`), no event of the cycle model -/
+theorem c20_has_is_read_only : Generated.EntityLocal.hasUseCaseSupportReadOnly = true := by decide
 
 end Spine.Props.C20Gen
